@@ -48,6 +48,7 @@ struct Row
   std::vector<std::pair<int, double>> el;
   double y = 0, a = 0, n = 1; // data, additive term, efficiency
   int view_basic = 0;         // basic view number of the bin's (view, segment): decides the subset
+  int view_basic_nontof = 0;  // the same under the symmetries a non-TOF projector of the same settings uses
   bool used = true;           // inside max_segment_num_to_process and not a zeroed end plane
 };
 
@@ -65,7 +66,7 @@ struct Prob
   std::vector<Row> rows, rows_sens; // rows of the data geometry; rows used by the sensitivity (non-TOF geometry for TOF data)
   int nvox = 0;
   CartesianCoordinate3D<int> lo, hi;
-  shared_ptr<DataSymmetriesForViewSegmentNumbers> symmetries;
+  shared_ptr<DataSymmetriesForViewSegmentNumbers> symmetries, symmetries_nontof;
   int vox_index(int z, int y_, int x) const { return ((z - lo[1]) * (hi[2] - lo[2] + 1) + (y_ - lo[2])) * (hi[3] - lo[3] + 1) + (x - lo[3]); }
   int subset_of(const Row& r) const { return (r.view_basic - pdi->get_min_view_num()) % num_subsets; }
 };
@@ -91,6 +92,9 @@ explicit_rows(const Prob& pr, const shared_ptr<ProjDataInfo>& pdi, std::vector<R
               ViewSegmentNumbers vs(v, s);
               pr.symmetries->find_basic_view_segment_numbers(vs);
               r.view_basic = vs.view_num();
+              ViewSegmentNumbers vs2(v, s);
+              pr.symmetries_nontof->find_basic_view_segment_numbers(vs2);
+              r.view_basic_nontof = vs2.view_num();
               r.used = std::abs(s) <= pr.max_seg
                        && !(pr.zero_end && s == 0 && (a == pdi->get_min_axial_pos_num(0) || a == pdi->get_max_axial_pos_num(0)));
               rows.push_back(r);
@@ -134,6 +138,9 @@ make_prob(const Plan& p)
     shared_ptr<ProjMatrixByBinUsingRayTracing> m = rc::make_matrix(pr.sym, false);
     m->set_up(pr.pdi, pr.lambda);
     pr.symmetries.reset(m->get_symmetries_ptr()->clone());
+    shared_ptr<ProjMatrixByBinUsingRayTracing> m2 = rc::make_matrix(pr.sym, false);
+    m2->set_up(pr.pdi_sens, pr.lambda);
+    pr.symmetries_nontof.reset(m2->get_symmetries_ptr()->clone());
   }
   explicit_rows(pr, pr.pdi, pr.rows);
   if (pr.tof)
@@ -368,7 +375,7 @@ struct Ref
 };
 
 Ref
-reference(const Prob& pr, const std::string& kind, int s)
+reference(const Prob& pr, const std::string& kind, int s, bool sens_groups_by_nontof_symmetries = false)
 {
   Ref r;
   r.img.assign((size_t)pr.nvox, 0.);
@@ -385,7 +392,9 @@ reference(const Prob& pr, const std::string& kind, int s)
         }
       const std::vector<Row>& rows = pr.tof ? pr.rows_sens : pr.rows;
       for (auto& row : rows)
-        if (row.used && (!pr.subset_sens || pr.subset_of(row) == s))
+        if (row.used
+            && (!pr.subset_sens
+                || (sens_groups_by_nontof_symmetries ? (row.view_basic_nontof - pr.pdi->get_min_view_num()) % pr.num_subsets : pr.subset_of(row)) == s))
           for (auto& e : row.el)
             {
               r.img[(size_t)e.first] += e.second * row.n;
@@ -479,6 +488,25 @@ check_against_reference(const Prob& pr, objective_type& obj, const std::string& 
   for (size_t i = 0; i < expect.size(); ++i)
     {
       const double tol = 1e-4 * r.mag[i] + 2e-6 * mmax;
+      if (!(std::fabs((double)a.img[i] - expect[i]) <= tol) && kind == "sens" && pr.tof && pr.subset_sens)
+        {
+          // known finding (known_findings.json): for TOF data the subset sensitivities are computed with a non-TOF projector
+          // whose view symmetries differ from those of the TOF projector (which switches the rotational ones off), so they
+          // are the sensitivities of OTHER groups of views than the subsets the gradient uses.  Exactly that is stepped over.
+          Ref alt = reference(pr, kind, s, true);
+          bool is_that = true;
+          for (size_t j = 0; j < alt.img.size(); ++j)
+            if (!(std::fabs((double)a.img[j] - alt.img[j]) <= 1e-4 * alt.mag[j] + 2e-6 * mmax))
+              is_that = false;
+          if (is_that)
+            {
+              sim::fail_soft("formula:sens:tof_subset_groups_follow_non_tof_symmetries",
+                             "TOF data, %d subsets: subset sensitivity %d is that of the view groups of the non-TOF symmetries (voxel %zu: %.9g, "
+                             "the subset the gradient uses gives %.9g)",
+                             pr.num_subsets, s, i, (double)a.img[i], expect[i]);
+              return;
+            }
+        }
       if (!(std::fabs((double)a.img[i] - expect[i]) <= tol))
         sim::fail("formula:" + kind, "%s(subset %d of %d) voxel %zu is %.9g, the explicit matrix gives %.9g (tolerance %.3g)", kind.c_str(), s,
                   pr.num_subsets, i, (double)a.img[i], expect[i], tol);
@@ -640,7 +668,7 @@ gen(uint64_t seed, const std::string& tier, long idx)
   p.ops.push_back(o);
   c18::gen_config(p, r, thorough);
 #else
-  p.cfg["ndet"] = 8 * r.range(1, thorough ? 3 : 2);
+  p.cfg["ndet"] = 8 * r.range(1, (thorough || r.chance(0.2)) ? 3 : 2); // 12 views allow 3 and 6 subsets
   p.cfg["nrings"] = r.range(1, 3);
   p.cfg["xy"] = 2 * r.range(2, 4) + 1;
   p.cfg["tof"] = r.chance(0.3);
